@@ -60,7 +60,11 @@ def airtovac(air):
                 1.67917e-3/(57.362 - sigma2))
         vacuum = a * fact
     if g is not None:
-        vacuum[g] = a[g]
+        #
+        # np.where also works for zero-dimensional input (numpy scalars,
+        # scalar Quantity), which does not support item assignment.
+        #
+        vacuum = np.where(g, a, vacuum)[()]
     if u is not None:
         vacuum = (vacuum * Angstrom).to(u)
     return vacuum
@@ -206,7 +210,11 @@ def vactoair(vacuum):
             1.67917e-3/(57.362 - sigma2))
     air = v / fact
     if g is not None:
-        air[g] = v[g]
+        #
+        # np.where also works for zero-dimensional input (numpy scalars,
+        # scalar Quantity), which does not support item assignment.
+        #
+        air = np.where(g, v, air)[()]
     if u is not None:
         air = (air * Angstrom).to(u)
     return air
